@@ -275,6 +275,8 @@ impl Service {
         kbuckets: Arc<RwLock<KBucketsTable<NodeId, Enr>>>,
         config: Config,
     ) -> Result<(oneshot::Sender<()>, mpsc::Sender<ServiceRequest>), std::io::Error> {
+        #[cfg(feature = "verif-hooks")]
+        crate::verif::glue::seen("service", &config);
         // process behaviour-level configuration parameters
         let ip_votes = if config.enr_update {
             Some(IpVote::new(
